@@ -15,7 +15,9 @@ for d in sorted(glob.glob("/verif/seeded/*/meta.json")):
     for c in caught:
         sigs += m["checks"][c]["violations"][:2]
     first = m.get("first_run")
-    if first is not None and not first.get("caught_by"):
+    if m.get("note_final_recheck") and not caught:
+        how = "missed at first; caught after strengthening; NOT caught by the final recheck at quick seed 1: " + m["note_final_recheck"]
+    elif first is not None and not first.get("caught_by"):
         how = "missed at first; caught after strengthening: " + m.get("strengthened", "")
     elif first is not None:
         how = "caught (re-run after later changes)"
